@@ -167,6 +167,11 @@ def run_one(ck, prog):
         ws = T.call_blocks_suffix(c, "spawn::wait_for_exit")
         ok = bool(ds) and all(any(c.cfg.dominates(w, d) and canon(c.args(w)[0]) == canon(strip_casts(c.args(d)[0])).replace("&", "") or
                                   (c.cfg.dominates(w, d) and mentions(c.args(d)[0], c.prov, lambda z: z[0] == "field" and z[2] == "tsm") and mentions(c.args(w)[0], c.prov, lambda z: z[0] == "field" and z[2] == "tsm")) for w in ws) for d in ds)
+        if not ok and ds:
+            # the wait written out in place: each free is dominated by an edge on which an Acquire load of the exit word gave != UNFINISHED
+            unfin = prog.const(T.M + "UNFINISHED")
+            edges = T.exit_word_checked_edges(c, unfin) if unfin is not None else []
+            ok = all(any(c.cfg.edge_dominates(e, d) and is_acquire(o) for e, lb, o in edges) for d in ds)
         ck.ob("C06.2", f"handle-frees-only-after-thread-exit|{p2.split('::')[-1] if 'Drop' not in p2 else 'Drop'}", ok, fn=p2, site=c.site(ds[0]) if ds else None,
               detail="the handle frees the join block without first waiting for the thread's exit word: the kernel still clears (and futex-wakes) that word when the thread exits, i.e. writes into freed memory")
 
